@@ -471,9 +471,78 @@ def defs_run(case, ctx):
                     ctx.fail("definition/get-differs", "%s via %s: shadow reads %r, original %r" % (name, how, b, a))
 
 
+# ----------------------------------------------------------------------------- stage defgrid
+def defgrid_gen(tier, shard, nshards):
+    """Every configuration of the C01/C03 lattice (and, for the trait types outside it, of the C01 extras) as a trait
+    DEFINITION, through every copy route."""
+    from vf import lattice as L
+    n = 0
+    for spec in L.grid():
+        if spec == ["None"]:
+            continue
+        for how in ROUTES:
+            if n % nshards == shard:
+                yield {"spec": spec, "route": how}
+            n += 1
+
+
+def defgrid_run(case, ctx):
+    from vf import lattice as L
+    from vf import values as Vv
+    spec, how = case["spec"], case["route"]
+    t = L.build(spec)
+    ct = t.as_ctrait()
+    try:
+        if how == "pickle":
+            c2 = pickle.loads(pickle.dumps(ct))
+        elif how == "deepcopy":
+            c2 = copy.deepcopy(ct)
+        else:
+            c2 = copy.copy(ct)
+    except Exception as e:
+        sig = "/module-type" if isinstance(e, pickle.PicklingError) and "<class 'module'>" in str(e) else ""
+        ctx.fail("definition/%s-raised%s" % (how, sig), "%s of the definition %s raised %r" % (how, L.spec_id(spec), e))
+    o = Holder()
+    n_diff = 0
+    ctx.evaluations -= 1
+    for enc, _ in L.all_values():
+        v = Vv.dec(enc)
+        if L.hazardous(spec, v):
+            continue
+        ctx.add_evals(1)
+        a = outcome(lambda: ct.validate(o, "x", v))
+        b = outcome(lambda: c2.validate(o, "x", v))
+        if a[0] == "ok":
+            n_diff += 1
+        if a != b and " at 0x" not in str(a) + str(b):
+            ctx.fail("definition/validate-differs", "%s via %s: validate(%s) gives %r, the original definition gives %r"
+                     % (L.spec_id(spec), how, enc, b, a))
+    ctx.nontrivial(key=[spec, how], sample={"spec": spec, "route": how})
+    d1, d2 = repr(ct.default_value()), repr(c2.default_value())
+    if d1 != d2 and " at 0x" not in d1:
+        ctx.fail("definition/default-differs", "%s via %s: default %s, original %s" % (L.spec_id(spec), how, d2, d1))
+    for attr in ("type", "is_property", "comparison_mode", "is_mapped", "modify_delegate"):
+        if getattr(ct, attr) != getattr(c2, attr):
+            ctx.fail("definition/attribute-differs", "%s via %s: %s is %r, original %r"
+                     % (L.spec_id(spec), how, attr, getattr(c2, attr), getattr(ct, attr)))
+    # and attached to an object: the image governs assignments like the original
+    o1, o2 = Holder(), Holder()
+    o1.add_trait("q", ct)
+    o2.add_trait("q", c2)
+    for enc, _ in L.all_values()[::3]:
+        v = Vv.dec(enc)
+        if L.hazardous(spec, v):
+            continue
+        a = outcome(lambda: (setattr(o1, "q", v), getattr(o1, "q"))[1])
+        b = outcome(lambda: (setattr(o2, "q", v), getattr(o2, "q"))[1])
+        if a != b and " at 0x" not in str(a) + str(b):
+            ctx.fail("definition/set-differs", "%s via %s: assigning %s gives %r, original %r" % (L.spec_id(spec), how, enc, b, a))
+
+
 def stages(tier):
     return [
         {"name": "objects", "kind": "hyp", "strategy": objects_strategy, "run": objects_run,
          "examples": {"quick": 10000, "thorough": 250000}, "shards": 16},
         {"name": "defs", "kind": "enum", "gen": defs_gen, "run": defs_run, "shards": 16, "exhaustive": True},
+        {"name": "defgrid", "kind": "enum", "gen": defgrid_gen, "run": defgrid_run, "shards": 16, "exhaustive": True},
     ]
